@@ -406,6 +406,32 @@ func buildCases(r *vk.Run) []protox.Case {
 			cs = append(cs, mkCase("fresh", "handshake-cut", fmt.Sprint(cut), full[:cut], -1))
 		}
 	}
+	// (v') complex handshake (non-zero version field): the digest position inside C1 is computed from
+	// four bytes the peer chooses, for either schema; every value of their sum 0..1020
+	{
+		vers := [][]byte{{0x80, 0x00, 0x07, 0x02}}
+		if !quick {
+			vers = append(vers, []byte{0, 0, 0, 1}, []byte{0xff, 0xff, 0xff, 0xff})
+		}
+		for _, ver := range vers {
+			for _, at := range []int{8, 772} {
+				for sum := 0; sum <= 1020; sum++ {
+					h := c0c1()
+					copy(h[1+4:], ver)
+					left := sum
+					for k := 0; k < 4; k++ {
+						x := left
+						if x > 255 {
+							x = 255
+						}
+						h[1+at+k] = byte(x)
+						left -= x
+					}
+					cs = append(cs, mkCase("fresh", "complex-handshake", fmt.Sprintf("ver %x offset bytes at %d sum %d", ver, at, sum), append(h, make([]byte, 1536)...), -1))
+				}
+			}
+		}
+	}
 	// (vii) fragmentation: the canonical publish session cut at every offset / byte-wise
 	{
 		full := stagePrefix("publishing")[1+1536+1536:]
